@@ -6,7 +6,7 @@ CONSTANTS
   Attr <- MCAttr
   NHosts = 2
   MaxOps = 4
-  StoreUnderReadLock = @STOREUNDERREAD@
-  SelectIgnoresFailure = @SELECTIGNORES@
+  StoreUnderReadLock = TRUE
+  SelectIgnoresFailure = FALSE
 PROPERTIES TableWriteExclusive
 CHECK_DEADLOCK FALSE
